@@ -254,9 +254,11 @@ class eval_abs(object):
         return out
 
     #give mem stored overlapping requested mem ptr
-    def get_mem_overlapping(self, e, eval_cache = {}):
+    def get_mem_overlapping(self, e, eval_cache = None):
         if not isinstance(e, ExprMem):
             raise ValueError('mem overlap bad arg')
+        if eval_cache is None:
+            eval_cache = {}
         ov = []
         """
         for k in self.pool:
